@@ -60,6 +60,7 @@ let raw_of_hex (s : string) : int list =
 (* UTF-8 decode (inputs are valid UTF-8 produced by the generators) *)
 let rec utf8 (b : int list) : int list = match b with
   | [] -> []
+  | c :: t when c >= 0xF8 -> 0xFFFD :: utf8 t          (* a byte that no UTF-8 sequence contains: the lossy form has one U+FFFD for it *)
   | c :: t when c < 0x80 -> c :: utf8 t
   | c :: d :: t when c < 0xE0 -> (((c land 0x1F) lsl 6) lor (d land 0x3F)) :: utf8 t
   | c :: d :: e :: t when c < 0xF0 -> (((c land 0x0F) lsl 12) lor ((d land 0x3F) lsl 6) lor (e land 0x3F)) :: utf8 t
